@@ -555,6 +555,12 @@ fn build_case(t: &mut Tape, cfg: &GenCfg) -> Case {
 
 static DIR_COUNTER: AtomicU64 = AtomicU64::new(0);
 
+/// A runaway walk costs seconds; shrinking would repeat it thousands of times. Once one case has
+/// failed that way, every *other* case of this process passes immediately (so proptest's shrink
+/// loop and the other workers end at once) and exactly that case keeps failing, which is what the
+/// runner re-runs and writes as the replay. 0 = not latched; otherwise hash of the latched case.
+static RUNAWAY_CASE: AtomicU64 = AtomicU64::new(0);
+
 fn tmp_base() -> PathBuf {
     std::env::var("VERIF_C17_TMP").map(PathBuf::from).unwrap_or_else(|_| PathBuf::from("/verif/target/tmp/c17"))
 }
@@ -796,7 +802,12 @@ struct Shape {
 fn check_tree(idx: &BTreeIndex, model: &Model) -> Result<Shape, Bad> {
     let nodes = match catch(|| idx.verif_walk()) {
         Err(p) => return Err(bad(format!("wf.walk_panic.{}", panic_class(&p)), format!("walking the tree panicked: {}", p))),
-        Ok(Err(e)) => return Err(bad("wf.unreadable_node", format!("walking the tree failed: {}", e))),
+        Ok(Err(e)) => {
+            let m = e.to_string();
+            // the hook gives up after 1M nodes: the child pointers form a cycle / DAG blow-up
+            let sig = if m.contains("too many nodes") { "wf.runaway_walk" } else { "wf.unreadable_node" };
+            return Err(bad(sig, format!("walking the tree failed: {}", m)));
+        }
         Ok(Ok(n)) => n,
     };
     let height = idx.height();
@@ -1390,6 +1401,12 @@ impl Check for C17 {
     }
 
     fn run(&self, case: &Case, obs: &mut Obs) -> Verdict {
+        let case_hash = vcore::runner::stable_hash(&serde_json::to_string(case).unwrap_or_default()) | 1;
+        let latched = RUNAWAY_CASE.load(AtomicOrdering::Relaxed);
+        if latched != 0 && latched != case_hash {
+            obs.class("skipped_after_runaway_walk");
+            return Verdict::Pass;
+        }
         obs.excluded = case.excluded as u64;
         obs.class(&format!("schema:{}", case.schema.name()));
         obs.class(if case.bulk.is_some() { "start:bulk_load" } else { "start:empty" });
@@ -1409,6 +1426,9 @@ impl Check for C17 {
                 sig
             };
             obs.nontrivial = ev.split > 0 && (ev.merge + ev.borrow + ev.collapse) > 0;
+            if sig.starts_with("wf.runaway_walk") {
+                let _ = RUNAWAY_CASE.compare_exchange(0, case_hash, AtomicOrdering::Relaxed, AtomicOrdering::Relaxed);
+            }
             if sig.starts_with("harness.") {
                 return Verdict::Harness(format!("{}: {} ({})", sig, detail, at));
             }
